@@ -141,7 +141,7 @@ def make_case(rnd, big=False):
             rec['st'] = lsim.struct(c)
         rec['tests'] = np.asarray(sf.tests(c)).astype(int).tolist()
         rec['resp'] = np.asarray(sf.responses(c)).astype(int).tolist()
-        rec['loc'] = np.asarray(sf.tests_loc(c)).astype(int).tolist() if full else [[0] * npat for _ in iface]
+        rec['loc'] = np.asarray(sf.tests_loc(c)).astype(int).tolist()
     except Exception as e:
         rec['raised'] = True
         rec['err'] = repr(e)[:300]
@@ -183,10 +183,11 @@ def main(tier=None, replay=None):
         ck.count('two-chain-files', 1 if len(x['chains']) == 2 else 0)
         ck.count('markers', sum(ch['cells'].count('!') for ch in x['chains']))
         ck.count('loc-checked', 1 if x['loc_checked'] else 0)
+        ck.count('loc-partial', 0 if x['loc_checked'] else 1)
         ck.count('launch-calls', sum(1 for p in x['pats'] if p['haslaunch']))
-    ck.need_cover(['two-chain-files', 'markers', 'loc-checked', 'launch-calls'])
+    ck.need_cover(['two-chain-files', 'markers', 'loc-checked', 'loc-partial', 'launch-calls'])
     ck.sample(dict(stil_text=metas[0]['stil'][-700:], chains=recs[0]['chains'], tests=recs[0]['tests']))
-    ck.assumptions += ['flip-flop kinds are upper-case DFF (StilFile matches \'DFF\' case-sensitively)', 'unload strings over H/L/X; tests_loc judged for fully specified 0/1 loads and inputs with a clock pulse in the capture call',
+    ck.assumptions += ['flip-flop kinds are upper-case DFF (StilFile matches \'DFF\' case-sensitively)', 'unload strings over H/L/X; tests_loc judged exactly for fully specified 0/1 loads and inputs with a clock pulse in the capture call; with X/- among loads or inputs, every position whose expected value is definite must be exact and every other position must be X or - (TestsLocPartial)',
                        'the STIL renderer of the harness (trusted); TLC, JSON reader, projection']
     return ck.finish('seeded random circuits with 1..7 flip-flops in scrambled node order x 1-2 chains x marker placements x 1..4 patterns (with/without launch call '
                      'and clock pulses) x shuffled signal groups; distinct by (circuit, STIL text)')
